@@ -31,7 +31,7 @@ def verdicts (i : Inst) (as : List Nat) : String :=
   s!"once={bit (Spec.Mtvrp.onceB i as)} load={bit (Spec.Mtvrp.loadB i as)} order={bit (Spec.Mtvrp.orderB i as)} " ++
   s!"dist={bit (Spec.Mtvrp.distB i as)} time={bit (Spec.Mtvrp.timeB .le i as)} " ++
   s!"cSort={bit (sortedTest i.n as)} cStatic={bit (checkStatic i)} cLen={bit (checkReplay noTw 0 0 0 as)} " ++
-  s!"cTime={bit (checkReplay noLimit 0 0 0 as)} cCapL={bit (checkC1 [i.cap] i.dL 0 as)} cCapB={bit (checkC1 [i.cap] i.dB 0 as)} " ++
+  s!"cTime={bit (checkReplay noLimit 0 0 0 as)} cCapL={bit (checkC1 i.cap i.dL 0 as)} cCapB={bit (checkC1 i.cap i.dB 0 as)} " ++
   s!"wf={bit (wf i)}"
 
 /-- `mtvrp.episode <instance sections> | actions` -/
